@@ -22,6 +22,19 @@ implementation or the Lean model:
   completion after a dot : fields, procs, funcs of the operand's class and ancestors, each name
                      once (nearest spelling); elsewhere: params + locals + visible constants
 
+Shapes beyond the plain ones (all inside the guard `WellFormedWs` of the theorems):
+
+* a uses list may name entities that have no file in the workspace (`Ghost`), at any position — they
+  declare nothing, the rule skips them and goes on with the next used entity;
+* methods without a body (`proc P(a : T) external 'lib'`, `func F(i : T) return T forward`) in classes
+  and modules: their parameters are visible nowhere else; other methods complete at statement starts /
+  after dots and refer to names that only such a parameter carries (unresolvable there);
+* a dangling `x.` in the middle of a body is followed by any kind of line: a keyword statement (`exit`,
+  an `if` block), or a line that starts with an identifier (assignment, call, chain, possibly after an
+  empty line).  Line ends separate nothing in Gold: `x.⏎name = 1` IS `x.name = 1`, so the identifiers of
+  such a line are expected to resolve as the chain's next members (`continuation`), and a position
+  between the dot and that name is a position after the dot.
+
 Every query carries `tags`: the scenario it exercises.  Tags that name a known deviation of the
 implementation become part of the oracle signature, so that a recorded finding never hides an
 unrelated failure.
@@ -36,6 +49,12 @@ CONST_POOL = ["cMax", "cMin", "cName", "cLimit"]
 TYPE_POOL = ["tRef", "tNum", "tLink", "tOwner"]
 LOCAL_POOL = ["lTmp", "lCur", "lObj", "lIdx", "lRes"]
 PARAM_POOL = ["pArg", "pSrc", "pDst", "pN"]
+# parameters of body-less methods (`external '…'` / `forward`) also draw from these, so that a name that
+# only such a method declares exists in most documents that have one
+BODYLESS_PARAM_POOL = ["pFreq", "pDur", "pIdx", "pHandle"]
+# entities a uses list may name although the workspace has no file for them (a library without
+# source, a misspelt name): they declare nothing
+GHOST_POOL = ["wSysLib", "aMissing", "wExtern", "aK9x"]
 
 
 def recase(rng, s, mode=None):
@@ -69,7 +88,8 @@ class Entity:
     def __init__(self, name, kind):
         self.name, self.kind = name, kind
         self.parent = None
-        self.uses = []
+        self.uses = []            # the used entities that exist (what the rules look at)
+        self.uses_written = []    # the uses list as written: entities and ghosts
         self.consts, self.types, self.fields, self.methods = [], [], [], []
         self.header = Decl(name, "class" if kind == "class" else "module", self)
 
@@ -94,11 +114,20 @@ class Entity:
         return None
 
 
+class Ghost:
+    """an entry of a uses list that names no file of the workspace"""
+    kind = "ghost"
+
+    def __init__(self, name):
+        self.name = name
+
+
 class Method:
     def __init__(self, decl):
         self.decl = decl
         self.params, self.locals, self.stmts = [], [], []
         self.untyped = set()
+        self.bodyless = None      # None | "external" | "forward": declared without a body
 
 
 def class_of(ty):
@@ -154,6 +183,11 @@ class Gen:
             others = [e for e in self.entities if e is not c]
             r.shuffle(others)
             c.uses = others[:r.below(4)]
+            c.uses_written = list(c.uses)
+            if r.chance(1, 2):
+                # names of entities that do not exist, anywhere in the list (also first, also twice)
+                for g in [r.choice(GHOST_POOL) for _ in range(1 + r.below(2))]:
+                    c.uses_written.insert(r.below(len(c.uses_written) + 1), Ghost(g))
         # phase 1: constants and types of every entity (what a later type reference resolves to must
         # not change afterwards); phase 2: fields and methods, ancestors first (overriding)
         for e in order:
@@ -242,7 +276,10 @@ class Gen:
                 d = Decl(n, kind, e, self.pick_type(e, classes) if kind == "func" else None)
                 if kind == "func" and d.ty[0] == "refto":
                     d.ty = ("class", d.ty[1])      # `return` takes a basic type
-                e.methods.append(Method(d))
+                mm = Method(d)
+                if r.chance(1, 5):
+                    mm.bodyless = "external" if r.chance(1, 2) else "forward"
+                e.methods.append(mm)
 
     def fill_method(self, e, m, classes, mods):
         r = self.r
@@ -259,8 +296,9 @@ class Gen:
                     return recase(r, n) if r.chance(1, 3) else n
             return r.choice(cands) if cands else None
 
-        for _ in range(r.below(3)):
-            n = local_name(PARAM_POOL)
+        nparams = (1 + r.below(3)) if m.bodyless else r.below(3)
+        for _ in range(nparams):
+            n = local_name(PARAM_POOL + BODYLESS_PARAM_POOL if m.bodyless else PARAM_POOL)
             if n:
                 used.add(n.upper())
                 d = Decl(n, "param", e, self.pick_type(e, classes))
@@ -269,7 +307,7 @@ class Gen:
                     d.ty = None
                     m.untyped.add(d)
                 m.params.append(d)
-        for _ in range(r.below(4)):
+        for _ in range(0 if m.bodyless else r.below(4)):
             n = local_name(LOCAL_POOL)
             if n:
                 used.add(n.upper())
@@ -300,6 +338,23 @@ class Gen:
                 continue
             # a member that is neither constant nor type: the rule does not select it; keep looking
         return []
+
+    def ghost_tags(self, e, exp):
+        """scenario tags of a plain reference that the rule resolves through the uses list"""
+        if not exp or exp[0].kind in ("param", "local") or exp[0].owner in e.chain():
+            return set()
+        seen_ghost = False
+        for u in (e.uses_written or e.uses):
+            if u.kind == "ghost":
+                seen_ghost = True
+            elif exp[0].owner in u.chain():
+                return {"via-uses", "uses-after-ghost"} if seen_ghost else {"via-uses"}
+        return set()
+
+    def bodyless_params(self, e):
+        """names that parameters of body-less methods carry, in the class' chain and in what it uses"""
+        ents = list(e.chain()) + [a for u in e.uses for a in u.chain()]
+        return [p.name for a in ents for mm in a.methods if mm.bodyless for p in mm.params]
 
     def uses_member_hit(self, e, m, key):
         """True when the implementation's uses search would hit a declaration the rule does not select"""
@@ -420,7 +475,7 @@ class Gen:
         col = L.col()
         L.add(txt)
         exp = self.resolve_plain(e, m, name.upper())
-        t = set(tags) | {"typeref"}
+        t = set(tags) | {"typeref"} | self.ghost_tags(e, exp)
         if txt != name:
             t.add("recased")
         L.pending.append(lambda ln, col=col, n=len(txt), exp=exp, t=t, name=name: self.qdef(ln, col, n, exp, t, "type reference " + name))
@@ -441,16 +496,21 @@ class Gen:
             L.pending.append(lambda ln, pcol=pcol, n=len(txt), par=par: self.qdef(ln, pcol, n, [par.header], {"parentref"}, "parent class " + par.name))
         L.emit()
         self.lines.append("")
-        if e.uses:
+        written = e.uses_written or e.uses
+        if written:
             L = self.Line(self)
             L.add(self.kw("uses") + " ")
-            for i, u in enumerate(e.uses):
+            for i, u in enumerate(written):
                 if i:
                     L.add(", ")
                 txt = self.ref(u.name)
                 ucol = L.col()
                 L.add(txt)
-                L.pending.append(lambda ln, ucol=ucol, n=len(txt), u=u: self.qdef(ln, ucol, n, [u.header], {"uses-entry"}, "uses entry " + u.name))
+                if u.kind == "ghost":
+                    # names no file: nothing to go to
+                    L.pending.append(lambda ln, ucol=ucol, n=len(txt), u=u: self.qdef(ln, ucol, n, [], {"uses-entry", "ghost"}, "uses entry " + u.name + " (no such entity)"))
+                else:
+                    L.pending.append(lambda ln, ucol=ucol, n=len(txt), u=u: self.qdef(ln, ucol, n, [u.header], {"uses-entry"}, "uses entry " + u.name))
             L.emit()
             self.lines.append("")
         for d in e.consts:
@@ -514,7 +574,17 @@ class Gen:
         if d.kind == "func":
             L.add(" " + self.kw("return") + " ")
             self.type_text(L, e, m, d.ty, tags={"rettype"})
-        if len(self.resolve_member(e, d.key())) > 1 and r.chance(1, 2):
+        over = len(self.resolve_member(e, d.key())) > 1 and r.chance(1, 2)
+        if m.bodyless:
+            # no body, no end keyword: the declaration ends with the modifiers
+            mod = self.kw("external") + " 'lib%d.%s'" % (r.below(9), d.name) if m.bodyless == "external" else self.kw("forward")
+            mods = [mod] + ([self.kw("override")] if over else [])
+            if r.chance(1, 2):
+                mods.reverse()
+            L.add(" " + " ".join(mods))
+            L.emit()
+            return
+        if over:
             L.add(" " + self.kw("override"))
         L.emit()
         for v in m.locals:
@@ -585,31 +655,43 @@ class Gen:
             if not cands:
                 break
             d = r.choice(cands)
-            decls = self.resolve_member(ent, d.key())
-            near = decls[0]
-            t = {"dotted"} | prev["bad"]
-            bad = set(prev["bad"])
-            if len(decls) > 1:
-                t.add("overridden")
-            if i >= 2:
-                t.add("chained")
-            if prev["ty"][0] == "module":
-                t.add("module-member")
-            if prev["ty"][0] == "alias":
-                t.add("alias")
-            if self.shadowed(e, m, ent, d.key()):
-                t.add("shadow-self")
-                bad.add("shadow-self")
+            near = self.resolve_member(ent, d.key())[0]
             call = near.kind in ("proc", "func") and r.chance(2, 3)
-            # the class under annotation shows only the methods declared so far, also to lookups that
-            # reach it through a descendant's chain
-            if near.kind in ("func", "proc") and near.owner is e and e.methods.index(self.method_of(e, near)) > self.m_index:
-                bad.add("forward")
-            if call and prev["ty"][0] == "module":
-                bad.add("modcall")
-            nty = near.ty if near.kind in ("field", "func") else None
-            elems.append({"name": near.name, "exp": decls, "tags": t, "call": call, "ty": nty, "ctx": "right", "bad": bad})
+            elems.append(self.member_elem(e, m, prev, near.name, i, call))
         return elems
+
+    def member_elem(self, e, m, prev, name, i, call):
+        """the chain element `name` written after a dot whose left operand is the element `prev`, by the rule for
+        a name after a dot: every declaration of the member in the operand's class and its ancestors, nearest
+        first; the element has the nearest declaration's type.  No such member / operand without a class:
+        nothing, and nothing for whatever follows."""
+        ent = class_of(prev["ty"])
+        t = {"dotted"} | prev["bad"]
+        bad = set(prev["bad"])
+        if i >= 2:
+            t.add("chained")
+        decls = self.resolve_member(ent, name.upper()) if ent is not None else []
+        if not decls:
+            t.add("unknown-operand" if ent is None else "no-such-member")
+            return {"name": name, "exp": [], "tags": t, "call": call, "ty": None, "ctx": "right", "bad": bad}
+        near = decls[0]
+        if len(decls) > 1:
+            t.add("overridden")
+        if prev["ty"][0] == "module":
+            t.add("module-member")
+        if prev["ty"][0] == "alias":
+            t.add("alias")
+        if self.shadowed(e, m, ent, near.key()):
+            t.add("shadow-self")
+            bad.add("shadow-self")
+        # the class under annotation shows only the methods declared so far, also to lookups that
+        # reach it through a descendant's chain
+        if near.kind in ("func", "proc") and near.owner is e and e.methods.index(self.method_of(e, near)) > self.m_index:
+            bad.add("forward")
+        if call and prev["ty"][0] == "module":
+            bad.add("modcall")
+        nty = near.ty if near.kind in ("field", "func") else None
+        return {"name": name, "exp": decls, "tags": t, "call": call, "ty": nty, "ctx": "right", "bad": bad}
 
     def method_of(self, e, decl):
         for mm in e.methods:
@@ -639,20 +721,23 @@ class Gen:
             if i:
                 L.add(".")
                 self.dot_query(L, e, m, elems[i - 1], {"complete"})
-            txt = self.ref(el["name"])
-            col = L.col()
-            L.add(txt)
-            if el["call"]:
-                L.add("(")
-                for k in range(self.r.below(3)):
-                    if k:
-                        L.add(", ")
-                    self.plain_ref(L, e, m)
-                L.add(")")
-            tags = set(el["tags"]) | {el["ctx"]}
-            if txt != el["name"]:
-                tags.add("recased")
-            L.pending.append(lambda ln, col=col, n=len(txt), el=el, tags=tags: self.qdef(ln, col, n, el["exp"], tags, "chain element " + el["name"]))
+            self.write_elem(L, e, m, el)
+
+    def write_elem(self, L, e, m, el):
+        txt = self.ref(el["name"])
+        col = L.col()
+        L.add(txt)
+        if el["call"]:
+            L.add("(")
+            for k in range(self.r.below(3)):
+                if k:
+                    L.add(", ")
+                self.plain_ref(L, e, m)
+            L.add(")")
+        tags = set(el["tags"]) | {el["ctx"]}
+        if txt != el["name"]:
+            tags.add("recased")
+        L.pending.append(lambda ln, col=col, n=len(txt), el=el, tags=tags: self.qdef(ln, col, n, el["exp"], tags, "chain element " + el["name"]))
 
     def dot_query(self, L, e, m, left, tags, width=0):
         """completion right after a dot whose left operand is `left` (position anywhere in [col, col+width])"""
@@ -677,9 +762,21 @@ class Gen:
         if c < 2 and literal_ok:
             L.add(str(r.below(100)))
             return
+        blp = self.bodyless_params(e)
         if c < 3:
-            name = r.choice(["zzNothing", "qUnknown", "lMissing"])
+            name = r.choice(["zzNothing", "qUnknown", "lMissing"] + [u.name for u in e.uses_written if u.kind == "ghost"])
             exp, tags = [], {"unresolvable"}
+        elif blp and r.chance(1, 6):
+            # a name a parameter of a body-less method carries: visible in no other method (it resolves
+            # only when this method, the class chain or a used entity declares the name too)
+            name = r.choice(blp)
+            exp = self.resolve_plain(e, m, name.upper())
+            tags = {"bodyless-param"} | ({"unresolvable"} if not exp else set())
+            if self.uses_member_hit(e, m, name.upper()):
+                if "uses-member" not in self.dev:
+                    name, exp, tags = "zzNothing", [], {"unresolvable"}
+                else:
+                    tags.add("uses-member")
         else:
             cands = []
             for d in m.params + m.locals:
@@ -710,7 +807,7 @@ class Gen:
         txt = self.ref(name)
         col = L.col()
         L.add(txt)
-        tags = tags | {"plain"}
+        tags = tags | {"plain"} | self.ghost_tags(e, exp)
         if txt != name:
             tags.add("recased")
         L.pending.append(lambda ln, col=col, n=len(txt), exp=exp, tags=tags, name=name: self.qdef(ln, col, n, exp, tags, "plain identifier " + name))
@@ -720,11 +817,12 @@ class Gen:
         exp = self.visible_plain(e, m)
         L.pending.append(lambda ln, col=col, exp=exp: self.q("c", ln, col, exp, {"stmt-start"}, "statement start"))
 
-    def statement(self, e, m, indent, depth):
+    def statement(self, e, m, indent, depth, force=None, start_query=True):
         r = self.r
-        c = r.below(13)
+        c = r.below(13) if force is None else force
         L = self.Line(self, indent)
-        self.stmt_start_query(e, m, L)
+        if start_query:
+            self.stmt_start_query(e, m, L)
         if c < 5:
             elems = self.pick_chain(e, m)
             if not elems:
@@ -773,10 +871,11 @@ class Gen:
             L.emit()
         elif c < 11:
             L.emit()      # blank line: statement start with nothing on it
-        elif c < 12 and depth == 0:
-            # dangling dot in the middle of a body; the next statement starts with a keyword
-            if self.dangling(e, m, indent, last=False):
-                self.lines.append(" " * indent + self.kw("exit"))
+        elif c < 12:
+            # dangling dot in the middle of a body, followed by any kind of line
+            left = self.dangling(e, m, indent, last=False)
+            if left:
+                self.after_dangling(e, m, indent, depth, left)
         else:
             self.plain_stmt(L, e, m)
 
@@ -806,18 +905,103 @@ class Gen:
         L.emit()
 
     def dangling(self, e, m, indent, last):
-        """`x.` with nothing after the dot (the line the user is typing)"""
+        """`x.` with nothing after the dot (the line the user is typing); -> the element left of the dot"""
         elems = self.pick_chain(e, m, maxlen=2, want_entity=True)
         if not elems:
-            return False
+            return None
         L = self.Line(self, indent)
         self.stmt_start_query(e, m, L)
         self.write_chain(L, e, m, elems)
         L.add(".")
         self.dot_query(L, e, m, elems[-1], {"dangling", "dangling-last" if last else "dangling-mid"})
         L.emit()
+        elems[-1]["depth"] = len(elems)
+        return elems[-1]
+
+    def after_dangling(self, e, m, indent, depth, left):
+        """the line that follows a dangling `x.` in the middle of a body.  A keyword cannot be an operand: the
+        dot keeps an empty right operand (no statement-start position is queried on that keyword: for the
+        parser it still lies inside the dot expression).  An identifier can: the line continues the chain."""
+        r = self.r
+        k = r.below(6)
+        if k == 0:
+            self.lines.append(" " * indent + self.kw("exit"))
+        elif k == 1 and depth < 2:
+            self.statement(e, m, indent, depth, force=8, start_query=False)      # an `if` block
+        else:
+            gap = (k == 5)
+            if not self.continuation(e, m, indent, left, r.below(3), gap):
+                self.lines.append(" " * indent + self.kw("exit"))
+
+    def member_safe(self, ent, key):
+        """`key` after a dot on an operand of class `ent` is a field / method name or nothing at all (constants,
+        types, `self` and entity names after a dot are outside the generator's domain)"""
+        for a in ent.chain():
+            d = a.find(key)
+            if d is not None and d.kind not in ("field", "proc", "func"):
+                return False
         return True
 
+    def continuation(self, e, m, indent, left, form, gap):
+        """`x.` ⏎ `name …`: line ends separate nothing, so this IS `x.name …` — the first identifier of the line
+        is the member `name` of x's class (all its declarations along the chain; usually there is none and the
+        answer is empty), what follows it after further dots goes on from that member's type, and a position
+        between the dot and the name (start of the line, an empty line in between) is a position after the dot.
+        form 0: `name = ref`, 1: `name(args)`, 2: `name.member… [= ref]`"""
+        r = self.r
+        ent = class_of(left["ty"])
+        own_fields = [f.name for a in e.chain() for f in a.fields]
+        own_methods = [mm.decl.name for a in e.chain() for mm in a.methods]
+        ent_fields = [f.name for a in ent.chain() for f in a.fields]
+        ent_methods = [mm.decl.name for a in ent.chain() for mm in a.methods]
+        if form == 1:
+            names = own_methods + ent_methods + ["writeln", "WriteLn"]
+        else:
+            names = [d.name for d in m.params + m.locals] + own_fields + ent_fields + ["zzNothing"]
+        names = [n for n in names if self.member_safe(ent, n.upper())]
+        if not names:
+            return False
+        depth0 = left.get("depth", 1)
+        name = r.choice(names)
+        decls = self.resolve_member(ent, name.upper())
+        is_method = bool(decls) and decls[0].kind in ("proc", "func")
+        call = (form == 1) or (form == 2 and is_method and r.chance(2, 3))
+        elems = [self.member_elem(e, m, left, name, depth0, call)]
+        if form == 2:
+            for j in range(1 + r.below(2)):
+                prev = elems[-1]
+                nent = class_of(prev["ty"])
+                if nent is not None:
+                    cands = [f for a in nent.chain() for f in a.fields] + [mm.decl for a in nent.chain() for mm in a.methods]
+                    if not cands:
+                        break
+                    near = self.resolve_member(nent, r.choice(cands).key())[0]
+                    nm, ncall = near.name, near.kind in ("proc", "func") and r.chance(2, 3)
+                else:
+                    nm, ncall = r.choice(FIELD_POOL + METHOD_POOL), r.chance(1, 4)
+                elems.append(self.member_elem(e, m, prev, nm, depth0 + 1 + j, ncall))
+        for el in elems:
+            el["tags"].add("continued")
+        if not self.allowed(elems):
+            return False
+        if gap:
+            # an empty line between the dot and the name: still after the dot
+            G = self.Line(self, indent)
+            self.dot_query(G, e, m, left, {"dangling", "continued-gap"})
+            G.emit()
+        L = self.Line(self, indent)
+        # start of the line = start of the member name after the dot
+        self.dot_query(L, e, m, left, {"dangling", "continued-start"}, width=0)
+        for i, el in enumerate(elems):
+            if i:
+                L.add(".")
+                self.dot_query(L, e, m, elems[i - 1], {"complete", "continued"})
+            self.write_elem(L, e, m, el)
+        if form == 0 or (form == 2 and not elems[-1]["call"] and r.chance(1, 2)):
+            L.add(" = ")
+            self.plain_ref(L, e, m)
+        L.emit()
+        return True
 
 def generate(rng, wid, deviations=(), recase_refs=True, recase_kw=True, size=None):
     g = Gen(rng, wid, deviations, recase_refs, recase_kw, size).build().render()
